@@ -516,20 +516,28 @@ func c13Unmarshal(c *Ctx) {
 	if !c.Anchor(um != nil, "ja3-wire-order", "(*tls.clientHelloMsg).unmarshal") {
 		return
 	}
+	// unmarshal may be split into parts (unmarshalExtensions(data) on the same receiver): the extension analysis runs on
+	// the part that records the extension types, the list-fill analysis on all parts
+	parts := c13UnmarshalParts(um)
 	// the store m.extensions = X
 	var st *ssa.Store
-	for _, b := range um.Blocks {
-		for _, in := range b.Instrs {
-			if s, ok := in.(*ssa.Store); ok {
-				if fa, ok := s.Addr.(*ssa.FieldAddr); ok && fieldNameOf(fa) == "extensions" && fa.X == ssa.Value(um.Params[0]) {
-					if st != nil {
-						c.Violate("ja3-wire-order", "unmarshal stores extensions once", p.InstrPos(s), "more than one store to clientHelloMsg.extensions")
+	umAll := um
+	for _, part := range parts {
+		for _, b := range part.Blocks {
+			for _, in := range b.Instrs {
+				if s, ok := in.(*ssa.Store); ok {
+					if fa, ok := s.Addr.(*ssa.FieldAddr); ok && fieldNameOf(fa) == "extensions" && fa.X == ssa.Value(part.Params[0]) {
+						if st != nil {
+							c.Violate("ja3-wire-order", "unmarshal stores extensions once", p.InstrPos(s), "more than one store to clientHelloMsg.extensions")
+						}
+						st = s
+						um = part
 					}
-					st = s
 				}
 			}
 		}
 	}
+	_ = umAll
 	if !c.Check(st != nil, "ja3-wire-order", "unmarshal stores extensions", p.Pos(um.Pos()), "", "the parsed hello never records its extension types") {
 		return
 	}
@@ -615,27 +623,33 @@ func c13Unmarshal(c *Ctx) {
 	for _, fld := range []string{"cipherSuites", "supportedCurves"} {
 		n := 0
 		// the list may be decoded by a helper whose result is stored into the field: then the fill sites are the helper's
-		scan := []*ssa.Function{um}
+		scan := append([]*ssa.Function(nil), parts...)
 		helperLists := map[ssa.Value]bool{}
-		for _, b := range um.Blocks {
-			for _, in := range b.Instrs {
-				st3, ok := in.(*ssa.Store)
-				if !ok {
-					continue
-				}
-				fa3, ok := st3.Addr.(*ssa.FieldAddr)
-				if !ok || fieldNameOf(fa3) != fld {
-					continue
-				}
-				v := st3.Val
-				if ex, isE := v.(*ssa.Extract); isE && ex.Index == 0 {
-					v = ex.Tuple
-				}
-				if hc, isC := v.(*ssa.Call); isC {
-					if hf := hc.Call.StaticCallee(); hf != nil && InRepo(hf) && hf.Blocks != nil {
-						scan = append(scan, hf)
-						for _, r := range Returns(hf) {
-							helperLists[Deref(RetVals(r)[0])] = true
+		isPart := map[*ssa.Function]bool{}
+		for _, part := range parts {
+			isPart[part] = true
+		}
+		for _, part := range parts {
+			for _, b := range part.Blocks {
+				for _, in := range b.Instrs {
+					st3, ok := in.(*ssa.Store)
+					if !ok {
+						continue
+					}
+					fa3, ok := st3.Addr.(*ssa.FieldAddr)
+					if !ok || fieldNameOf(fa3) != fld {
+						continue
+					}
+					v := st3.Val
+					if ex, isE := v.(*ssa.Extract); isE && ex.Index == 0 {
+						v = ex.Tuple
+					}
+					if hc, isC := v.(*ssa.Call); isC {
+						if hf := hc.Call.StaticCallee(); hf != nil && InRepo(hf) && hf.Blocks != nil {
+							scan = append(scan, hf)
+							for _, r := range Returns(hf) {
+								helperLists[Deref(RetVals(r)[0])] = true
+							}
 						}
 					}
 				}
@@ -652,7 +666,7 @@ func c13Unmarshal(c *Ctx) {
 					if !ok {
 						continue
 					}
-					if sf == um {
+					if isPart[sf] {
 						if _, ok := isFieldLoadNamed(ia.X, fld); !ok {
 							continue
 						}
@@ -680,32 +694,47 @@ func c13Info(c *Ctx) {
 	}
 	want := map[string]string{"Version": "vers", "CipherSuites": "cipherSuites", "Extensions": "extensions", "SupportedCurves": "supportedCurves", "SupportedPoints": "supportedPoints", "ServerName": "serverName"}
 	got := map[string]string{}
-	for _, b := range fn.Blocks {
-		for _, in := range b.Instrs {
-			st, ok := in.(*ssa.Store)
-			if !ok {
-				continue
-			}
-			fa, ok := st.Addr.(*ssa.FieldAddr)
-			if !ok || NamedOf(fa.X.Type()) == nil || NamedOf(fa.X.Type()).Obj().Name() != "ClientHelloInfo" {
-				continue
-			}
-			name := fieldNameOf(fa)
-			if _, ok := want[name]; !ok {
-				continue
-			}
-			src := "?"
-			if ld, ok := st.Val.(*ssa.UnOp); ok {
-				if sfa, ok := ld.X.(*ssa.FieldAddr); ok && NamedOf(sfa.X.Type()) != nil && NamedOf(sfa.X.Type()).Obj().Name() == "clientHelloMsg" {
-					if Render(sfa.X) == "p0.clientHello" {
-						src = fieldNameOf(sfa)
-					}
+	// the literal may be built in clientHelloInfo itself or in a helper it hands hs.clientHello to
+	builders := []*ssa.Function{fn}
+	helloParam := map[ssa.Value]bool{}
+	for _, call := range Calls(fn) {
+		if hf := call.Common().StaticCallee(); hf != nil && InRepo(hf) && hf.Blocks != nil && PkgOf(hf) == PkgOf(fn) {
+			for ai, a := range call.Common().Args {
+				if Render(a) == "p0.clientHello" && ai < len(hf.Params) {
+					helloParam[hf.Params[ai]] = true
+					builders = append(builders, hf)
 				}
 			}
-			if prev, dup := got[name]; dup && prev != src {
-				src = prev + "+" + src
+		}
+	}
+	for _, bf := range builders {
+		for _, b := range bf.Blocks {
+			for _, in := range b.Instrs {
+				st, ok := in.(*ssa.Store)
+				if !ok {
+					continue
+				}
+				fa, ok := st.Addr.(*ssa.FieldAddr)
+				if !ok || NamedOf(fa.X.Type()) == nil || NamedOf(fa.X.Type()).Obj().Name() != "ClientHelloInfo" {
+					continue
+				}
+				name := fieldNameOf(fa)
+				if _, ok := want[name]; !ok {
+					continue
+				}
+				src := "?"
+				if ld, ok := st.Val.(*ssa.UnOp); ok {
+					if sfa, ok := ld.X.(*ssa.FieldAddr); ok && NamedOf(sfa.X.Type()) != nil && NamedOf(sfa.X.Type()).Obj().Name() == "clientHelloMsg" {
+						if (bf == fn && Render(sfa.X) == "p0.clientHello") || helloParam[sfa.X] {
+							src = fieldNameOf(sfa)
+						}
+					}
+				}
+				if prev, dup := got[name]; dup && prev != src {
+					src = prev + "+" + src
+				}
+				got[name] = src
 			}
-			got[name] = src
 		}
 	}
 	var names []string
@@ -811,4 +840,27 @@ func convIndexed(v ssa.Value) (ssa.Value, int64, bool) {
 	}
 	k, ok := ConstInt(ia.Index)
 	return ia.X, k, ok
+}
+
+// c13UnmarshalParts: unmarshal and the methods of the same receiver it hands (a slice of) the message to.
+func c13UnmarshalParts(um *ssa.Function) []*ssa.Function {
+	parts := []*ssa.Function{um}
+	seen := map[*ssa.Function]bool{um: true}
+	for i := 0; i < len(parts) && i < 4; i++ {
+		for _, call := range Calls(parts[i]) {
+			f := call.Common().StaticCallee()
+			if f == nil || seen[f] || f.Blocks == nil || f.Signature.Recv() == nil || len(call.Common().Args) < 2 {
+				continue
+			}
+			if NamedOf(f.Signature.Recv().Type()) != NamedOf(um.Signature.Recv().Type()) || call.Common().Args[0] != ssa.Value(parts[i].Params[0]) {
+				continue
+			}
+			if len(f.Params) < 2 || !isByteSlice(f.Params[1].Type()) {
+				continue
+			}
+			seen[f] = true
+			parts = append(parts, f)
+		}
+	}
+	return parts
 }
